@@ -46,6 +46,7 @@ PosIn(p, x) == CHOOSE i \in 1..K : p[i] = x
 \* decoy "conv": an undeclared member with the CONVENTIONAL name (xl/worksheets/sheet<k>.xml,
 \*          ppt/slides/slide<k>.xml) numbered by the missing position, in packages whose real
 \*          parts live elsewhere
+\* notes  : PPTX: which slides have a notes slide: "none", "all", "odd" / "even" (by part number)
 \* conf   : OOXML conformance class of the package, consistently: "transitional" (schemas.openxmlformats.org) or
 \*          "strict" (ISO/IEC 29500 Strict: purl.oclc.org namespaces for the main document, DrawingML and r:, and
 \*          purl.oclc.org relationship Types for worksheet / slide / officeDocument / styles / theme ...)
@@ -65,15 +66,16 @@ XmlSome == { XmlProf(TRUE, "r", FALSE, FALSE, FALSE, FALSE, "std"),        \* r:
              XmlProf(FALSE, "r", FALSE, TRUE, FALSE, TRUE, "bom"),         \* foreign id LAST, comments between entries, BOM
              XmlProf(TRUE, "ns1", TRUE, TRUE, TRUE, TRUE, "std") }          \* everything, foreign id FIRST
 OProf(pa, tg, de, ex, inf) == [paths |-> pa, tgt |-> tg, decoy |-> de, extras |-> ex, infra |-> inf,
-                               enc |-> "none", opf |-> "root", ver |-> 0, extra |-> FALSE, missing |-> 0, alias |-> "none", chain |-> "one", xml |-> XStd, conf |-> "transitional"]
+                               enc |-> "none", opf |-> "root", ver |-> 0, extra |-> FALSE, missing |-> 0, alias |-> "none", chain |-> "one", xml |-> XStd, conf |-> "transitional", notes |-> "none"]
 EProf(pa, en, op, ve, de, xt, ex, inf) == [paths |-> pa, tgt |-> "rel", decoy |-> de, extras |-> ex, infra |-> inf,
-                               enc |-> en, opf |-> op, ver |-> ve, extra |-> xt, missing |-> 0, alias |-> "none", chain |-> "one", xml |-> XStd, conf |-> "transitional"]
+                               enc |-> en, opf |-> op, ver |-> ve, extra |-> xt, missing |-> 0, alias |-> "none", chain |-> "one", xml |-> XStd, conf |-> "transitional", notes |-> "none"]
 Miss(pr, m) == [pr EXCEPT !.missing = m]
 Enc(pr, e)  == [pr EXCEPT !.enc = e]
 Alias(pr, a) == [pr EXCEPT !.alias = a]
 ChainOf(pr, c) == [pr EXCEPT !.chain = c]
 Xml(pr, x) == [pr EXCEPT !.xml = x]
 Conf(pr, c) == [pr EXCEPT !.conf = c]
+Notes(pr, n) == [pr EXCEPT !.notes = n]
 
 OProfiles == { OProf("std", "rel", "none", TRUE, TRUE),      OProf("std", "abs", "last", FALSE, FALSE),
                OProf("nested", "rel", "first", FALSE, TRUE), OProf("renamed", "rel", "none", TRUE, FALSE),
@@ -97,6 +99,10 @@ OProfiles == { OProf("std", "rel", "none", TRUE, TRUE),      OProf("std", "abs",
                     Conf(ChainOf(Miss(OProf("renamed", "rel", "conv", TRUE, FALSE), 2), "infraMixed"), "strict"),
                     Conf(Xml(ChainOf(OProf("nested", "abs", "first", TRUE, FALSE), "infraFirst"), XmlProf(TRUE, "ns1", TRUE, TRUE, TRUE, TRUE, "std")), "strict"),
                     ChainOf(OProf("std", "rel", "last", TRUE, FALSE), "infraMixed") }
+             \* per-part attachments (PPTX notes slides), also next to an unreadable slide
+             \cup { Notes(OProf("std", "rel", "none", TRUE, TRUE), "all"), Notes(Miss(OProf("std", "rel", "last", FALSE, TRUE), 1), "all"),
+                    Notes(Miss(OProf("nested", "rel", "none", TRUE, FALSE), 2), "odd"), Notes(Miss(OProf("renamed", "abs", "first", FALSE, TRUE), 1), "even"),
+                    Notes(Conf(OProf("dot", "rel", "none", FALSE, TRUE), "strict"), "even") }
 EProfiles == { EProf("std", "none", "one", 3, "none", FALSE, TRUE, TRUE),
                EProf("std", "sp20", "root", 2, "last", TRUE, FALSE, FALSE),
                EProf("nested", "plusLit", "one", 3, "none", FALSE, FALSE, TRUE),
@@ -185,7 +191,9 @@ AliasSp(f, pr) ==
 
 Part(f, pr, id, n, decl, rel, zip) ==
     [id |-> id, name |-> NameOf(f, pr, n), href |-> HrefOf(f, pr, n), decl |-> decl, rel |-> rel, zip |-> zip,
-     present |-> ~(decl > 0 /\ decl = pr.missing)]
+     present |-> ~(decl > 0 /\ decl = pr.missing),
+     notes |-> f = "pptx" /\ decl > 0 /\ (CASE pr.notes = "all" -> TRUE [] pr.notes = "odd" -> id % 2 = 1
+                                              [] pr.notes = "even" -> id % 2 = 0 [] OTHER -> FALSE)]
 
 \* the conventional place and stem of the parts of a format
 StdProf(pr) == [pr EXCEPT !.paths = "std", !.tgt = "rel"]
@@ -252,9 +260,10 @@ SimPick ==
             \E pa \in R({"std", "nested", "renamed", "dot"}), tg \in R({"rel", "abs"}), de \in R({"none", "first", "last", "conv"}),
                ex \in R(BOOLEAN), inf \in R(BOOLEAN), m \in R(0..K),
                en \in R({"none", "sp20", "plusLit", "pct2520", "eC3A9", "paren", "amp"}), al \in R({"none", "decoded", "query"}),
-               ch \in R({"one", "infraFirst", "infraMixed"}), x \in R(XmlSome \cup {XStd}), cf \in R({"transitional", "strict"}) :
-               Draw(f, Conf(Xml(ChainOf(Alias(Enc(Miss(OProf(pa, tg, IF de = "conv" /\ ~(m > 0 /\ pa \in {"nested", "renamed"}) THEN "none" ELSE de,
-                                            ex, inf), m), en), al), ch), x), cf))
+               ch \in R({"one", "infraFirst", "infraMixed"}), x \in R(XmlSome \cup {XStd}), cf \in R({"transitional", "strict"}),
+               nt \in R({"none", "all", "odd", "even"}) :
+               Draw(f, Notes(Conf(Xml(ChainOf(Alias(Enc(Miss(OProf(pa, tg, IF de = "conv" /\ ~(m > 0 /\ pa \in {"nested", "renamed"}) THEN "none" ELSE de,
+                                            ex, inf), m), en), al), ch), x), cf), nt))
     /\ UNCHANGED <<pages, pos>>
 SimNext == SimPick \/ (pkg.fmt # "none" /\ Next)
 SimSpec == SimInit /\ [][SimNext]_vars
